@@ -57,6 +57,9 @@ def run(ctx):
                       "ovh": "noodles_bgzf::io::writer::COMPRESSION_LEVEL_0_OVERHEAD"},
                      lambda v: (v["mc"] == v["buf"] + v["ovh"] and v["mc"] <= 65536 - 26,
                                 "MAX_COMPRESSED_SIZE == MAX_BUF_SIZE + OVERHEAD <= 65536-26"), "SAMv1 §4.1")
+    elif ctx.cfg == "L":
+        ctx.ok("C01.R1", "deflate budget [libdeflate]", "not decided in cfg L: the libdeflate encoder has no MAX_COMPRESSED_SIZE; "
+               "an over-budget block is the try_from error exit of write_frame (R4)")
     else:
         ctx.violation("C01.R1", "C01.R1/ANCHOR-MISSING/noodles_bgzf::deflate::encode::MAX_COMPRESSED_SIZE",
                       "constant MAX_COMPRESSED_SIZE not found")
@@ -121,6 +124,15 @@ def run(ctx):
         def is_bound(fn, ops, kind):
             return any(R.const_operand_is(o, keys={"noodles_bgzf::deflate::encode::MAX_COMPRESSED_SIZE"}) for o in ops)
         R.bound_guard(ctx, "C01.R3", fe.key, "compressed size <= MAX_COMPRESSED_SIZE before Ok", is_bound, fn=fe)
+
+    if fe is not None and fe.cfg == "L":
+        # libdeflate variant: the output buffer is sized by the compressor's own bound
+        rs = R.find_calls(fe, r"Vec::<T, A>::resize$")
+        if rs and all(_at_least_call_result(fe, c["args"][1], r"deflate_compress_bound$") for b, c in rs):
+            ctx.ok("C01.R3", "deflate::encode [libdeflate] sizes dst with deflate_compress_bound(src.len())", "", fe.loc())
+        else:
+            ctx.violation("C01.R3", "C01.R3/output-buffer/%s/libdeflate" % fe.key,
+                          "the libdeflate encoder's output buffer is no longer at least deflate_compress_bound(src.len())", fe.loc())
 
     # the output buffer handed to the compressor holds at least compress_bound(src.len()) bytes: otherwise an
     # incompressible block ends with Status::Ok (buffer full) instead of StreamEnd and valid data is rejected
